@@ -1,10 +1,12 @@
 //! C08, shared interruptibility state: several calls made one after the other with ONE
 //! `InterruptibilityState` handed to each through `reborrow()` (that is what the lifetimes of
-//! `StreamOpts<'rx, 'intx>` are for). The signal is sent before the first call; from then on it
+//! `StreamOpts<'rx, 'intx>` are for). The signal is sent before the first call (or, in a quarter of
+//! the cases, before the second, after a clean first call); from then on it
 //! "has been sent" for every later call as well, whether it still sits in the channel, has been
 //! taken out of it by an earlier call (and is remembered in the state), or the sender is gone.
 //! Oracle: every call obeys the "already pending when the call begins" bound of the property -
-//! FinishCurrent starts nothing, PollNextN(n) at most n - and returns.
+//! FinishCurrent starts nothing, PollNextN(n) at most n (C08) - and returns (C04: a call that is
+//! pending without a wake-up although every user closure completes at once never will).
 //!
 //! User closures complete at once and only count, so no controlled executor is needed: the call
 //! is polled with a flag waker until it returns.
@@ -31,21 +33,30 @@ impl Wake for Flag {
     }
 }
 
-/// Polls to completion; `None` if the future is pending without a wake-up (some other
-/// property's business) or does not finish within a generous number of polls.
-fn drive<T>(mut fut: Pin<Box<dyn Future<Output = T> + '_>>) -> Option<T> {
+/// Why a call did not return.
+#[derive(Clone, Copy, Debug, PartialEq, Eq)]
+pub enum Stuck {
+    /// Pending, and nobody has been asked to wake the task: the call can never make progress (the
+    /// user closures here complete at once, so nothing outside the library is outstanding).
+    NoWakeUp,
+    /// Still waking itself after a generous number of polls: not decided.
+    PollBudget,
+}
+
+/// Polls to completion, or says why the call did not return.
+fn drive<T>(mut fut: Pin<Box<dyn Future<Output = T> + '_>>) -> Result<T, Stuck> {
     let flag = Arc::new(Flag(AtomicBool::new(true)));
     let waker = Waker::from(flag.clone());
     let mut cx = Context::from_waker(&waker);
     for _ in 0..100_000 {
         if !flag.0.swap(false, Ordering::SeqCst) {
-            return None;
+            return Err(Stuck::NoWakeUp);
         }
         if let Poll::Ready(v) = fut.as_mut().poll(&mut cx) {
-            return Some(v);
+            return Ok(v);
         }
     }
-    None
+    Err(Stuck::PollBudget)
 }
 
 #[derive(Clone, Copy, Debug)]
@@ -59,7 +70,7 @@ enum Call {
     ControlMut(usize),
 }
 
-fn one_call(g: &mut FnGraph<TFn>, call: Call, opts: StreamOpts<'_, '_>, started: &RefCell<Vec<usize>>) -> Option<()> {
+fn one_call(g: &mut FnGraph<TFn>, call: Call, opts: StreamOpts<'_, '_>, started: &RefCell<Vec<usize>>) -> Result<(), Stuck> {
     match call {
         Call::Fold => drive(Box::pin(async {
             g.fold_async_with((), opts, |(), f| {
@@ -131,12 +142,18 @@ pub fn shared_state_case(gs: &GraphSpec, seed: u64) -> (Vec<Violation>, u64) {
         None => InterruptibilityState::new_finish_current(rx.into()),
         Some(k) => InterruptibilityState::new_poll_next_n(rx.into(), k),
     };
-    // the signal is sent before the first call
-    let _ = tx.try_send(InterruptSignal);
+    // the signal is sent before the first call, or (one case in four) only before the second:
+    // the first call then runs clean on the state the later ones share
+    let signal_at = if rng.chance(1, 4) { 1 } else { 0 };
     let mut tx = Some(tx);
     let calls = rng.range(2, 3);
     let mut made = 0u64;
     for c in 0..calls {
+        if c == signal_at {
+            if let Some(tx) = tx.as_ref() {
+                let _ = tx.try_send(InterruptSignal);
+            }
+        }
         let l = *rng.pick(&[0usize, 1, 2, 0]);
         let call = *rng.pick(&[Call::Fold, Call::FoldMut, Call::TryFold, Call::ForEach(l), Call::ForEachMut(l), Call::TryForEach(l), Call::ControlMut(l)]);
         let rev = rng.chance(1, 3);
@@ -163,22 +180,34 @@ pub fn shared_state_case(gs: &GraphSpec, seed: u64) -> (Vec<Violation>, u64) {
             Some(n) => n as usize,
         };
         let what = format!(
-            "call #{c} ({call:?}, reverse={rev}, include={include}) sharing one InterruptibilityState ({}) through reborrow(); the signal was sent before call #0{}",
+            "call #{c} ({call:?}, reverse={rev}, include={include}) sharing one InterruptibilityState ({}) through reborrow(); the signal was sent before call #{signal_at}{}",
             match poll_n {
                 None => "FinishCurrent".to_string(),
                 Some(n) => format!("PollNextN({n})"),
             },
-            if tx.is_none() { " and the sender was dropped after call #0" } else { "" }
+            if tx.is_none() { " and the sender was dropped after that call" } else { "" }
         );
-        if done.is_none() {
-            // pending without a wake-up: a hang is C04's finding; here it only means "not decided"
-            break;
+        match done {
+            Ok(()) => {}
+            Err(Stuck::NoWakeUp) => {
+                // every user closure completes at once: the call is pending with nothing outstanding
+                out.push(Violation { prop: "C04", kind: "shared-state-call-never-returns", detail: format!("{what}: the call is pending and no wake-up has been signalled (started so far {:?}) | g={}", started.borrow(), gs.encode()) });
+                break;
+            }
+            Err(Stuck::PollBudget) => break,
+        }
+        if c < signal_at {
+            if k != gs.n {
+                out.push(Violation { prop: "C04", kind: "shared-state-clean-call-incomplete", detail: format!("{what}: no signal had been sent yet, but the call returned after starting {k} of {} functions | g={}", gs.n, gs.encode()) });
+                break;
+            }
+            continue;
         }
         if k > bound {
             out.push(Violation { prop: "C08", kind: "shared-state-bound-exceeded", detail: format!("{what}: started {k} functions {:?}, bound {bound} | g={}", started.borrow(), gs.encode()) });
             break;
         }
-        if c == 0 && rng.chance(1, 2) {
+        if c == signal_at && rng.chance(1, 2) {
             tx = None;
         }
     }
